@@ -129,6 +129,8 @@ def mutations(m, t, doc, rnd, limit=40):
                     out.append(('string_too_short', set_at(doc, path, 'x' * (tt.args['min_length'] - 1))))
                 if tt.args.get('pattern'):
                     out.append(('pattern_prefix_only', set_at(doc, path, str(v) + '!')))
+                    out.append(('pattern_trailing_newline', set_at(doc, path, str(v) + '\n')))
+                    out.append(('pattern_leading_newline', set_at(doc, path, '\n' + str(v))))
             elif n == 'Bytes':
                 out.append(('bytes_bad_base64', set_at(doc, path, '!!!notbase64')))
                 out.append(('bytes_non_ascii', set_at(doc, path, 'é日本')))
